@@ -131,12 +131,12 @@ impl Router {
                 let request = req;
                 let self_clone = self.clone();
                 #[cfg(not(iwe_org_iwe_verif))]
-                let _ = std::thread::spawn(move || self_clone.on_request(request));
+                let _ = std::thread::spawn(move || self_clone.on_request_guarded(request));
                 #[cfg(iwe_org_iwe_verif)]
                 let _ = std::thread::spawn(move || {
                     let verif_id = format!("{}", request.id);
                     verif::event("worker-started", &verif_id);
-                    let result = self_clone.on_request(request);
+                    let result = self_clone.on_request_guarded(request);
                     verif::event("worker-finishing", &verif_id);
                     result
                 });
@@ -180,6 +180,19 @@ impl Router {
         };
 
         false
+    }
+
+    /// A handler that panics must still answer: the editor waits for exactly one response.
+    fn on_request_guarded(&self, request: Request) -> bool {
+        let id = request.id.clone();
+        panic::catch_unwind(panic::AssertUnwindSafe(|| self.on_request(request))).unwrap_or_else(|_| {
+            self.respond(Response::new_err(
+                id,
+                ErrorCode::InternalError as i32,
+                "request handler panicked".to_string(),
+            ));
+            false
+        })
     }
 
     fn on_request(&self, request: Request) -> bool {
